@@ -198,6 +198,26 @@ func c04r2(c *Ctx, id string) {
 			okEnd := e == x+"[(len("+x+") - const(1))]"
 			okSrc := strings.Contains(x, ".Get)()")
 			construct := "range-literal@" + fname(fn)
+			// the range is re-derived on every open: each return of the function is reached only through the store of
+			// this literal into the range field (a range kept from an earlier assignment would make the member ignore
+			// acknowledgements of vBuckets it now owns and accept those it no longer owns)
+			var st *ssa.Store
+			for _, r := range *a.Referrers() {
+				if x, isSt := r.(*ssa.Store); isSt && x.Val == ssa.Value(a) && fieldOfAddr(x.Addr) != nil {
+					st = x
+				}
+			}
+			if st == nil {
+				c.Fail(id, "range-install@"+fname(fn), a.Pos(), "the derived range is not stored into the stream's range field")
+			} else {
+				skipped := false
+				allInstrs(fn, func(in ssa.Instruction) {
+					if _, isRet := in.(*ssa.Return); isRet && existsEntryPathAvoiding(fn, in, func(x ssa.Instruction) bool { return x == ssa.Instruction(st) }) {
+						skipped = true
+					}
+				})
+				c.Check(!skipped, id, "range-install@"+fname(fn), st.Pos(), "every path through the function installs the freshly derived range", "a path through "+fname(fn)+" returns without installing the freshly derived range (a stale range stays in effect)")
+			}
 			if ok1 && okEnd && okSrc {
 				c.OK(id, construct, a.Pos(), "Start ← %s, End ← %s", s, e)
 			} else {
